@@ -159,6 +159,22 @@ def url_query_escape(I, args, ins):
     return QE(s)
 
 
+PE = z3.Function('url.PathEscape', z3.StringSort(), z3.StringSort())
+PATH_RAW = UNRESERVED | set('$&+=:@')      # what net/url leaves unescaped in a path segment
+
+
+def go_path_escape(s):
+    return ''.join(ch if ch in PATH_RAW else '%%%02X' % ord(ch) for ch in s)
+
+
+@stub('net/url.PathEscape')
+def url_path_escape(I, args, ins):
+    s = args[0]
+    if isinstance(s, str):
+        return go_path_escape(s)
+    return PE(s)
+
+
 def _is_from_code(t):
     return z3.is_app(t) and t.decl().kind() == z3.Z3_OP_STRING_FROM_CODE if hasattr(z3, 'Z3_OP_STRING_FROM_CODE') else (z3.is_app(t) and t.decl().name() == 'str.from_code')
 
@@ -185,9 +201,126 @@ def _atoms(t):
                         out.append(('escb', a[1]))
             else:
                 out.append(('esc', inner))
+        elif z3.is_app(p) and p.decl().name() == 'url.PathEscape':
+            inner = p.arg(0)
+            ia = _atoms(inner)
+            if all(a[0] in ('b', 'c') for a in ia):
+                for a in ia:
+                    if a[0] == 'c':
+                        out.extend(('c', ch) for ch in go_path_escape(a[1]))
+                    else:
+                        out.append(('pescb', a[1]))
+            else:
+                out.append(('pesc', inner))
         else:
             out.append(('o', p))
     return out
+
+
+def _atoms_to_raw(atoms):
+    """The text itself (escape wrappers kept), as opposed to _atoms_to_string (the unescaped reading)."""
+    parts, cur = [], ''
+    for a in atoms:
+        if a[0] == 'c':
+            cur += a[1]
+            continue
+        if cur:
+            parts.append(z3.StringVal(cur))
+            cur = ''
+        if a[0] == 'b':
+            parts.append(z3.StrFromCode(a[1]))
+        elif a[0] == 'escb':
+            parts.append(QE(z3.StrFromCode(a[1])))
+        elif a[0] == 'pescb':
+            parts.append(PE(z3.StrFromCode(a[1])))
+        elif a[0] == 'esc':
+            parts.append(QE(a[1]))
+        elif a[0] == 'pesc':
+            parts.append(PE(a[1]))
+        else:
+            parts.append(a[1])
+    if not parts:
+        return cur
+    if cur:
+        parts.append(z3.StringVal(cur))
+    return parts[0] if len(parts) == 1 else z3.Concat(*parts)
+
+
+def rope_eq(I, x, y):
+    """Equality of two texts compared atom by atom when their ropes have the same shape, else by the solver."""
+    def norm(t):
+        out = []
+        for a in _atoms(t):
+            if a[0] == 'c' and out and out[-1][0] == 'c':
+                out[-1] = ('c', out[-1][1] + a[1])
+            else:
+                out.append(a)
+        return out
+    ax, ay = norm(x), norm(y)
+    if len(ax) == len(ay) and all(p[0] == q[0] for p, q in zip(ax, ay)):
+        conds = []
+        for p, q in zip(ax, ay):
+            if p[0] == 'c':
+                if p[1] != q[1]:
+                    return False
+            else:
+                conds.append(I.eq(p[1], q[1]))
+        return b_and(*conds) if conds else True
+    return I.eq(x, y)
+
+
+def _opaque_text_kind(I, t):
+    g = I.ctx.ghost
+    k = str(t)
+    if k in g.get('b64dec', {}) or (k in g.get('string_tag', {}) and g['string_tag'][k][0] == 'b64of'):
+        return 'b64'
+    if k in g.get('hex', {}):
+        return 'hex'
+    return None
+
+
+def rope_replace_all(I, s, old, new):
+    """strings.ReplaceAll(s, old, new) for a one-character pattern that is neither '%' nor alphanumeric, position by
+    position over the rope; NotImplemented when the text has no rope structure."""
+    ctx = I.ctx
+    if not (isinstance(old, str) and isinstance(new, str) and len(old) == 1) or old == '%' or old.isalnum():
+        return NotImplemented
+    at = _atoms(s)
+    if all(a[0] == 'o' for a in at):
+        return NotImplemented
+    out = []
+    rep = [('c', ch) for ch in new]
+    for a in at:
+        k = a[0]
+        if k == 'c':
+            out.extend(rep if a[1] == old else [a])
+        elif k == 'b':
+            out.extend(rep if ctx.branch(a[1] == ord(old)) else [a])
+        elif k == 'escb':
+            if old == '+':
+                hit = ctx.branch(a[1] == 0x20)
+            elif old in UNRESERVED:
+                hit = ctx.branch(a[1] == ord(old))
+            else:
+                hit = False
+            out.extend(rep if hit else [a])
+        elif k == 'pescb':
+            hit = old in PATH_RAW and ctx.branch(a[1] == ord(old))
+            out.extend(rep if hit else [a])
+        elif k == 'esc':
+            kind = _opaque_text_kind(I, a[1])
+            if old == '+' or old in UNRESERVED:
+                if kind is None:
+                    raise Inconclusive('ReplaceAll over the escape of an opaque string')
+            out.append(a)
+        elif k == 'o':
+            kind = _opaque_text_kind(I, a[1])
+            if kind is None or (kind == 'b64' and old in '+/='):
+                raise Inconclusive('ReplaceAll over an opaque string')
+            out.append(a)
+        else:
+            raise Inconclusive('ReplaceAll over %s' % k)
+    return _atoms_to_raw(out)
 
 
 def _atoms_to_string(atoms):
@@ -235,6 +368,17 @@ def parse_query_atoms(I, atoms):
                 norm.append(('lit', b))      # a byte that is none of the query metacharacters
         elif a[0] == 'escb':
             norm.append(('lit', a[1]))       # escaped byte: unescapes to itself
+        elif a[0] == 'pescb':
+            # a byte escaped for a path segment: & = + stay raw and are read as query syntax
+            b = a[1]
+            cls = None
+            for ch in '&=+':
+                if ctx.branch(b == ord(ch)):
+                    cls = ch
+                    break
+            norm.append(('c', cls) if cls is not None else ('lit', b))
+        elif a[0] == 'pesc':
+            raise Inconclusive('path-escaped opaque string read as a query')
         elif a[0] == 'esc':
             norm.append(('olit', a[1]))      # escaped opaque string: unescapes to the string
         elif a[0] == 'o':
